@@ -125,7 +125,7 @@ def build_literal_units(jobs):
 
 # which harness function template an instantiation line calls -> the event kinds (kind, op) it would have produced
 INST_KINDS = {
-    "pair_all": {"bin": [("ScBin", "add"), ("ScBin", "div")], "neg": [("ScUn", "neg")], "cmp": [("ScCmp", "cmp")], "ident": [("ScIdent", "ident")],
+    "pair_all": {"bin": [("ScBin", "add"), ("ScBin", "div")], "assign": [("ScAssign", "add"), ("ScAssign", "div")], "neg": [("ScUn", "neg")], "cmp": [("ScCmp", "cmp")], "ident": [("ScIdent", "ident")],
                  "quot": [("ScQuot", "quotient")], "conv": [("ScConv", "conv")], "roundtrip": [("ScRoundTrip", "roundtrip")]},
     "quot_all": {"quot": [("ScQuot", "quotient")]},
     "conv_all": {"conv": [("ScConv", "conv")]},
@@ -361,9 +361,9 @@ def scaled_jobs(tier):
 
 
 def scaled_attr(kind, op, tag, diag):
-    if (kind in ("ScBin", "ScIdent") and op in ("div", "mod", "ident")) or kind == "ScQuot":
+    if (kind in ("ScBin", "ScIdent", "ScAssign") and op in ("div", "mod", "ident")) or kind == "ScQuot":
         return ["C02"]
-    if kind in ("ScBin", "ScUn"):
+    if kind in ("ScBin", "ScUn", "ScAssign"):
         return ["C01"]
     if kind == "ScCmp":
         return ["C03"]
